@@ -62,6 +62,7 @@ static struct stageinfo stages[] = {
 	[ASSEMBLE]   = {.name = "assemble"},
 	[LINK]       = {.name = "link"},
 };
+static struct array temps;
 
 static void
 usage(const char *fmt, ...)
@@ -215,6 +216,15 @@ succeeded(const char *phase, pid_t pid, int status)
 }
 
 static void
+rmtemps(void)
+{
+	char **temp;
+
+	arrayforeach (&temps, temp)
+		unlink(*temp);
+}
+
+static void
 buildobj(struct input *input, char *output)
 {
 	const char *phase;
@@ -234,6 +244,7 @@ buildobj(struct input *input, char *output)
 		if (fd < 0)
 			fatal("mkstemp:");
 		close(fd);
+		arrayaddptr(&temps, output);
 	} else if (output) {
 		if (strcmp(output, "-") == 0)
 			output = NULL;
@@ -289,6 +300,7 @@ kill:
 	if (!success) {
 		if (output)
 			unlink(output);
+		rmtemps();
 		exit(1);
 	}
 }
@@ -321,10 +333,7 @@ buildexe(struct input *inputs, size_t ninputs, char *output)
 		fatal("%s: spawn \"%s\": %s", s->name, *(char **)s->cmd.val, strerror(errno));
 	if (waitpid(pid, &status, 0) < 0)
 		fatal("waitpid %ju:", (uintmax_t)pid);
-	for (i = 0; i < ninputs; ++i) {
-		if (inputs[i].filetype != OBJ && inputs[i].filetype != CHDR)
-			unlink(inputs[i].name);
-	}
+	rmtemps();
 	exit(!succeeded(s->name, pid, status));
 }
 
